@@ -348,7 +348,7 @@ def run(tier, seed):
     binary = C.require_build("gensim")
     roots, texts, goods, bads = prepare_roots()
     refs = GenRefs(binary, shim, roots, texts)
-    n_runs = {"quick": 500, "thorough": 20000}[tier]
+    n_runs = {"quick": 500, "thorough": 60000}[tier]
     base = C.mix(seed, C.tag("C20"))
     pool = concurrent.futures.ThreadPoolExecutor(max_workers=C.jobs())
     failing = {}
@@ -457,7 +457,7 @@ def run(tier, seed):
         json.dump(doc, open(path, "w"), indent=1)
         k = next((k for k in known if k["match"].get("class") == "variant-does-not-compile" and k["match"].get("subject") == name), None)
         (known_hits if k else new_violations).append((k, doc, path))
-    n_var_runs = {"quick": 1500, "thorough": 30000}[tier]
+    n_var_runs = {"quick": 1500, "thorough": 60000}[tier]
     vbase = C.mix(seed, C.tag("C20-variants"))
     var_ops = 0
     var_disagree = {}
